@@ -12,6 +12,7 @@ Empty == [x \in {} |-> ""]
 Data == [v : {"0", "1"}] \cup {Empty}         \* a message need not carry the field a filter reads
 Flt1 == [k |-> "eq", f |-> "v", c |-> "1"]
 Not0 == [k |-> "not", a |-> [k |-> "eq", f |-> "v", c |-> "0"]]
+HdrE1 == [k |-> "and", l |-> [k |-> "heq", f |-> "event_type", c |-> "e1"], r |-> [k |-> "heq", f |-> "trigger_type", c |-> "event"]]
 NoF  == [k |-> "none"]
 \* trigger sets: shared and distinct event types, with and without filter, two decorators on one function
 TrigSets == {
@@ -19,6 +20,8 @@ TrigSets == {
   << [fid |-> "f", tag |-> "d1", kind |-> "event", key |-> "e1", flt |-> Flt1, kw |-> Empty],
      [fid |-> "g", tag |-> "d1", kind |-> "event", key |-> "e1", flt |-> NoF,  kw |-> Empty] >>,
   << [fid |-> "f", tag |-> "d1", kind |-> "event", key |-> "e1", flt |-> Not0, kw |-> Empty] >>,
+  << [fid |-> "f", tag |-> "d1", kind |-> "event", key |-> "e1", flt |-> HdrE1, kw |-> Empty],
+     [fid |-> "f", tag |-> "d2", kind |-> "event", key |-> "e2", flt |-> HdrE1, kw |-> Empty] >>,
   << [fid |-> "f", tag |-> "d1", kind |-> "event", key |-> "e1", flt |-> Flt1, kw |-> Empty],
      [fid |-> "f", tag |-> "d2", kind |-> "event", key |-> "e2", flt |-> NoF,  kw |-> [tagk |-> "x"]] >>,
   << [fid |-> "f", tag |-> "d1", kind |-> "event", key |-> "e1", flt |-> NoF,  kw |-> Empty],
@@ -55,7 +58,7 @@ Deliver == /\ bus # <<>>
 Consume(t) == /\ t \in TI /\ q[t] # <<>>
               /\ LET i == Head(q[t]) IN
                  /\ q' = [q EXCEPT ![t] = Tail(@)]
-                 /\ runs' = IF EvalF(trigs[t].flt, msgs[i].d)
+                 /\ runs' = IF EvalF(trigs[t].flt, msgs[i].d, Header(msgs[i]))
                             THEN Append(runs, [t |-> t, i |-> i, kw |-> RunKw(trigs[t], msgs[i]), parent |-> msgs[i].ctx,
                                                ctx |-> "r" \o ToString(Len(runs) + 1), st |-> "sleeping"])
                             ELSE runs
@@ -89,6 +92,6 @@ ContextLineage          == /\ \A k \in 1..Len(runs) : runs[k].parent = msgs[runs
 DistinctTasks           == \A a, b \in 1..Len(runs) : a # b => runs[a].ctx # runs[b].ctx
 W_NoOverlap == ~\E a, b \in 1..Len(runs) : a < b /\ runs[a].t = runs[b].t /\ runs[a].st = "sleeping" /\ runs[b].st = "sleeping"
 W_NoWildcardRun == \A k \in 1..Len(runs) : trigs[runs[k].t].key = msgs[runs[k].i].key
-W_NoFilterError == \A t \in TI : \A i \in 1..Len(msgs) : EvalR(trigs[t].flt, msgs[i].d) # "E"
+W_NoFilterError == \A t \in TI : \A i \in 1..Len(msgs) : EvalR(trigs[t].flt, msgs[i].d, Header(msgs[i])) # "E"
 W_NoFiltered == \A t \in TI : \A i \in 1..Len(msgs) : Matches(trigs[t], msgs[i]) => Accepts(trigs[t], msgs[i])
 =============================================================================
